@@ -262,6 +262,28 @@ def c09_extra(tier, seed, ctx):
         rc, _ = eng.close()
         if any("panicked" in l for _, l in eng.errlines()):
             violations.append(viol("C09", "panic-on-stderr", f"fen=[{fen}] stderr={[l for _, l in eng.errlines() if 'panicked' in l][:2]}"))
+    # positions with a short forced mate under a comfortable game clock: the iterations become cheap once the mate is seen, so
+    # iterative deepening runs on to very high depths (lines 255 plies long) before the allowance is used up
+    mates = ["7k/5Q2/8/PP3PR1/8/P5K1/8/8 w - - 0 1", "1K6/8/Q7/8/5R2/7k/8/8 w - - 0 1", "6k1/5ppp/8/8/8/8/8/R3K2R w KQ - 0 1",
+             "8/8/8/8/8/5k2/4q3/7K b - - 0 1", "k7/8/1K6/8/8/8/8/7R w - - 0 1"]
+    for fen in (mates[:3] if tier == "quick" else mates):
+        for lim in ("wtime 24000 btime 24000", "wtime 300000 winc 2000 btime 300000 binc 2000"):
+            def deep_mate(scale, fen=fen, lim=lim):
+                e2 = Engine(ctx["engine"])
+                e2.send(f"position fen {fen}")
+                v2, mv2, _, _ = one_go(e2, fen, lim, time_budget(fen, lim) / 20.0 + 2.0, scale)
+                v2 = [x for x in v2 if x["kind"] != "late-bestmove"] + (
+                    [viol("C09", "panic-on-stderr", f"fen=[{fen}] go {lim}: stderr={[l for _, l in e2.errlines() if 'panicked' in l][:2]}")] if any("panicked" in l for _, l in e2.errlines()) else [])
+                if mv2 is not None:
+                    queries.append((fen, "", mv2))
+                    e2.send("quit")
+                    e2.close()
+                else:
+                    e2.kill()
+                return v2
+            evals += 1
+            distinct.add((fen, lim))
+            violations += robust(deep_mate, attempts=2)
     # the position the go is answered for is the one the LAST accepted position command described, whatever came before it
     START = SEEDS[0]
     other = "rnbqkbnr/pppp1ppp/8/4p3/3QP3/8/PPP2PPP/RNB1KBNR w KQkq - 0 3"
@@ -508,6 +530,35 @@ def c10_extra(tier, seed, ctx):
             evals += 1
             distinct.add((fen, line, " ".join(burst)))
             violations += robust(warm_case)
+    # a go on a finished game (mated or stalemated side to move) is answered at once with no move; whatever it was limited by,
+    # the go commands that follow — on a live position — must each still get their bestmove (nothing may stay "running")
+    over = ["7k/5Q2/6K1/8/8/8/8/8 b - - 0 1".replace("5Q2", "6Q1"),      # black is mated
+            "7k/5Q2/6K1/8/8/8/8/8 b - - 0 1",                             # black is stalemated
+            "rnb1kbnr/pppp1ppp/8/4p3/6Pq/5P2/PPPPP2P/RNBQKBNR w KQkq - 1 3"]  # white is mated
+    for fen in over:
+        for go in ("go infinite", "go wtime 60000 btime 60000", "go movetime 200", "go nodes 1000", "go depth 3", "go"):
+            def after_the_end(scale, fen=fen, go=go):
+                v = []
+                eng = Engine(ctx["engine"])
+                eng.send(f"position fen {fen}")
+                eng.send(go)
+                time.sleep(0.3)
+                for k, (pos, g2) in enumerate((("position startpos", "go depth 2"), ("position startpos moves e2e4", "go nodes 200"))):
+                    idx = len(eng.lines())
+                    eng.send(pos)
+                    eng.send(g2)
+                    i = eng.wait_for(lambda l: l.startswith("bestmove"), 5.0 * scale, idx)
+                    if i is None:
+                        v.append(viol("C10", "go-or-stop-lost", f"after [{go}] on the finished game [{fen}]: [{pos}] [{g2}] (go number {k + 2} of the session) got no bestmove; stderr={[l for _, l in eng.errlines()][-2:]}"))
+                        break
+                    mv = (eng.lines()[i][1].split() + [""])[1]
+                    queries.append((SEEDS[0], "" if k == 0 else "e2e4", mv))
+                eng.send("quit")
+                eng.close()
+                return v
+            evals += 1
+            distinct.add(("finished game", fen, go))
+            violations += robust(after_the_end)
     for l in legal_queries(ctx["driver"], queries):
         violations.append(viol("C10", "bestmove-not-legal", l))
     return {"violations": violations, "model_mismatches": model_mismatches, "evaluations": evals, "distinct_nontrivial": len(distinct), "samples": samples,
